@@ -3,6 +3,16 @@ mod ops;
 mod util;
 // per-property operation modules (each exposes `pub fn dispatch(op: &str, args: &[String]) -> bool`)
 // MODULES-BEGIN
+mod c04;
+mod c18;
+mod c09;
+mod c06;
+mod c05;
+mod c07;
+mod c08;
+mod c14;
+mod c13;
+mod c02;
 // MODULES-END
 
 fn dump_file(path: &str) -> String {
@@ -30,6 +40,16 @@ fn main() {
     }
     let handled = false
         // DISPATCH-BEGIN
+        || c04::dispatch(op, &rest)
+        || c18::dispatch(op, &rest)
+        || c09::dispatch(op, &rest)
+        || c06::dispatch(op, &rest)
+        || c05::dispatch(op, &rest)
+        || c07::dispatch(op, &rest)
+        || c08::dispatch(op, &rest)
+        || c14::dispatch(op, &rest)
+        || c13::dispatch(op, &rest)
+        || c02::dispatch(op, &rest)
         // DISPATCH-END
         ;
     if !handled {
